@@ -28,11 +28,15 @@ assert not status.strip(), "/repo is not clean"
 fired_repo = []
 try:
     subprocess.run(["git", "-C", "/repo", "apply", os.path.join(dst, "patch.diff")], check=True)
-    for p in [f"C{i:02d}" for i in range(1, 21)]:
-        r = subprocess.run(["/venv/bin/python", os.path.join(VERIF, "check"), p, "--evidence-dir", "/tmp/asl-seed-ev"],
-                           capture_output=True, text=True)
-        if r.returncode == 1 and f"VIOLATION property={p}" in r.stdout:
-            fired_repo.append(p)
+    from concurrent.futures import ThreadPoolExecutor
+
+    def _one(p):
+        return p, subprocess.run(["/venv/bin/python", os.path.join(VERIF, "check"), p, "--evidence-dir", "/tmp/asl-seed-ev"],
+                                 capture_output=True, text=True)
+    with ThreadPoolExecutor(10) as ex:  # the checks only read /repo
+        for p, r in ex.map(_one, [f"C{i:02d}" for i in range(1, 21)]):
+            if r.returncode == 1 and f"VIOLATION property={p}" in r.stdout:
+                fired_repo.append(p)
 finally:
     subprocess.run(["git", "-C", "/repo", "checkout", "--", "."], check=True)
     shutil.rmtree("/tmp/asl-seed-ev", ignore_errors=True)
